@@ -33,7 +33,7 @@ ASSUMPTIONS = ["commands queued during the outage may legitimately precede the r
                "(not generated)"]
 REQUIRED_OBS = ["reconnects_judged", "refresh_requests_at_open", "converged_after_change",
                 "unchanged_refresh_silent", "poll_requests_predicted_and_seen",
-                "poll_restarted_by_status"]
+                "poll_restarted_by_status", "poll_after_reconnection"]
 BUDGET = {"quick": 100, "thorough": 1500}
 
 TAUS = [0.001, 0.5, 1.0, 2.0, 5.0, 29.0, 100.0, 299.0, 299.999, 300.0, 300.001, 301.0, 330.0,
@@ -58,10 +58,23 @@ def cases(tier, seed):
                        "delta": delta, "seed": rnd.randrange(1 << 30)}
     n = 40 if tier == "quick" else 2500
     for i in range(n):
-        gaps = [rnd.choice([299.0, 300.5, 301.0, 900.0, 3000.0, 150.0, 10.0])
+        gaps = [rnd.choice([299.0, 300.5, 301.0, 900.25, 3000.25, 150.0, 10.0])
                 for _ in range(rnd.randint(0, 5))]
         yield {"k": "poll", "gen": 4, "gaps": gaps, "answer": rnd.random() < 0.5,
                "horizon": rnd.choice([1000.0, 3500.0]), "seed": rnd.randrange(1 << 30)}
+    # silence that follows a reconnection (the poller must survive / restart)
+    for answer in (False, True):
+        for how_long in (0.0, 1.9, 30.0, 400.0):
+            yield {"k": "poll", "gen": 4, "gaps": [], "answer": answer, "horizon": 1900.0,
+                   "seed": 7, "losses": [[rnd.choice([50.25, 310.5, 120.75]), how_long]]}
+    for i in range(n // 2):
+        gaps = [rnd.choice([299.0, 300.5, 900.25, 150.0]) for _ in range(rnd.randint(0, 3))]
+        losses = sorted([rnd.choice([40.25, 310.75, 650.5, 1000.25]) + rnd.random() * 0.01,
+                         rnd.choice([0.0, 1.9, 30.0, 400.0])] for _ in range(rnd.randint(1, 2)))
+        if len(losses) == 2 and losses[1][0] < losses[0][0] + losses[0][1] + 5:
+            losses = losses[:1]
+        yield {"k": "poll", "gen": 4, "gaps": gaps, "answer": rnd.random() < 0.5,
+               "horizon": 2500.0, "seed": rnd.randrange(1 << 30), "losses": losses}
     yield {"k": "poll", "gen": 4, "gaps": [], "answer": False, "horizon": 1600.0, "seed": 1}
     yield {"k": "poll", "gen": 4, "gaps": [], "answer": True, "horizon": 1600.0, "seed": 2}
 
@@ -201,28 +214,53 @@ def run_reconnect(case):
     return viol, obs
 
 
-def predict_poll(T0, events, answer, horizon):
-    """events: sorted unsolicited group-status delivery times.  Returns poll instants."""
-    polls = []
+def predict_poll(T0, statuses, losses, answer, horizon):
+    """Event simulation of the AT4 group-status silence clock across reconnections.
+    statuses: times of unsolicited group status frames; losses: [(t, outage)].
+    Returns (expected zone-status request instants, restarts, reconnects)."""
+    static = [(t, "status") for t in statuses]
+    for t, o in losses:
+        static.append((t, "loss"))
+        static.append((t + o, "up"))
+    static.sort()
+    reqs = []
     nxt = T0 + 300.0
-    ev = list(events)
+    connected = True
     restarted = 0
+    reconnects = 0
     while True:
-        if ev and ev[0] < nxt:
-            nxt = ev.pop(0) + 300.0
-            restarted += 1
-            continue
-        if nxt > horizon:
+        t_static = static[0][0] if static else float("inf")
+        if min(t_static, nxt) > horizon:
             break
-        polls.append(nxt)
-        nxt = nxt + 300.0  # answered (clock restarts at the answer) or not: same instant
-    return polls, restarted
+        if abs(t_static - nxt) < 1e-6:
+            return None, 0, 0   # tie inside one instant: undecided
+        if t_static <= nxt:
+            t, kind = static.pop(0)
+            if kind == "status":
+                if connected:
+                    nxt = t + 300.0
+                    restarted += 1
+            elif kind == "loss":
+                connected = False
+            else:
+                connected = True
+                reconnects += 1
+                reqs.append(t)            # refresh request on the connected notification
+                if answer:
+                    nxt = t + 300.0       # the answer is a group status
+        else:
+            t = nxt
+            if connected:
+                reqs.append(t)
+            nxt = t + 300.0               # answered or not, the clock re-arms for 300 s
+    return reqs, restarted, reconnects
 
 
 def run_poll(case):
     viol, obs = [], {}
     out = {}
     rnd = random.Random(case["seed"])
+    losses = case.get("losses", [])
 
     async def main(loop, net, log):
         knobs = C.Knobs(broadcast=False)
@@ -234,23 +272,34 @@ def run_poll(case):
         T0 = loop.time()
         out["T0"] = T0
         out["m0"] = log.mark()
+        plan = []
         t = T0
-        ev = []
         for g in case["gaps"]:
             t += g
+            plan.append((t, "status", None))
+        for lt, o in losses:
+            plan.append((T0 + lt, "loss", o))
+        plan.sort(key=lambda x: x[0])
+        ev, ls = [], []
+        for t, kind, arg in plan:
             if t > T0 + case["horizon"]:
                 break
-            await asyncio.sleep(t - loop.time())
-            st = w.inst["zones"][rnd.randrange(3)]["status"]
-            st["damper"] = (st["damper"] + 5) % 100
+            await asyncio.sleep(max(0.0, t - loop.time()))
             c = net.current()
-            if c:
-                w.console.send(c, w.console.frame_zone_status())
+            if kind == "status":
+                st = w.inst["zones"][rnd.randrange(3)]["status"]
+                st["damper"] = (st["damper"] + 5) % 100
+                if c:
+                    w.console.send(c, w.console.frame_zone_status())
                 ev.append(loop.time())
+            elif c is not None:
+                net.script.append(("accept", arg))
+                ls.append((loop.time(), arg))
+                c.transport.peer_eof()
             await quiesce(loop)
         await asyncio.sleep(max(0.0, T0 + case["horizon"] - loop.time()))
         await quiesce(loop)
-        out["events"] = ev
+        out["events"], out["losses"] = ev, ls
         out["end"] = loop.time()
         out["polls"] = [t for _, t, k, d in log.since(out["m0"]) if k == "CON.frame"
                         and d["cmd"]["kind"] == "zone_status_request"]
@@ -266,20 +315,26 @@ def run_poll(case):
     if st != "ok" or "polls" not in out:
         v("poll-scenario-did-not-run", status=st)
         return viol, obs
-    want, restarted = predict_poll(out["T0"], out["events"], case["answer"], out["end"] - 1e-3)
+    want, restarted, reconnects = predict_poll(out["T0"], out["events"], out["losses"],
+                                               case["answer"], out["end"] - 1e-3)
     got = out["polls"]
+    if want is None:
+        return viol, {"ties_skipped": 1}
     if len(want) != len(got) or any(abs(a - b) > 1e-6 for a, b in zip(want, got)):
         missing = [t for t in want if not any(abs(t - x) < 1e-6 for x in got)]
         extra = [t for t in got if not any(abs(t - x) < 1e-6 for x in want)]
         if missing:
-            v("group-status-poll-missing", missing=missing[:4], seen=got[:8], events=out["events"])
+            v("group-status-poll-missing", missing=missing[:4], seen=got[:8],
+              events=out["events"], losses=out["losses"])
         if extra:
             v("group-status-poll-unexpected", extra=extra[:4], expected=want[:8],
-              events=out["events"])
+              events=out["events"], losses=out["losses"])
     else:
         obs["poll_requests_predicted_and_seen"] = len(want)
         if restarted:
             obs["poll_restarted_by_status"] = 1
+        if reconnects and any(t > max(l[0] + l[1] for l in out["losses"]) + 1 for t in want):
+            obs["poll_after_reconnection"] = 1
     if out["diff"]:
         v("model-not-following-group-status", diff=out["diff"])
     return viol, obs
